@@ -57,10 +57,13 @@ CHECKS = {
             "+ bounded-exhaustive and random correspondence with bit-range oracle",
             "C06.optimal: for every valid frequency table and every competing prefix code with >= 1 bit per symbol the lengths "
             "createFrom assigns cost no more (empty, single-symbol and general case in one statement, any tie-break); "
-            "canonical_is_prefix_free, code_lt, lengths_kraft_eq_one, single_symbol_one_bit, lookup_some_iff. The bit-level "
-            "encoder/decoder refinement (push appends exactly the code words; decode inverts) is proved in Props/C06Bits when "
-            "present and otherwise carried by the correspondence: every pushed item is read back on the real container, every bit "
-            "range is checked against code lengths measured on that container, and total cost against a reference Huffman.", "§6 C06"),
+            "canonical_is_prefix_free, code_lt, lengths_kraft_eq_one, single_symbol_one_bit, lookup_some_iff. Bit level: push_appends "
+            "(the store's bit string grows by exactly the code words, earlier bits unchanged, u64 accumulator never truncates for "
+            "codes <= 57 bits), chunks_spec / decode_spec (BitIterator and the nested-table Decoder invert it, any table depth), "
+            "createFrom_tableOK, roundtrip_coded / frame_coded / bits_eq_sum / refuses_unknown / raw_mode; capstone "
+            "roundtrip_merged: a container built by merge_regions from valid statistics reads back every accepted item. The "
+            "correspondence checks bit ranges against code lengths measured on the real container and total cost against a "
+            "reference Huffman, on bounded-exhaustive and random profiles in both build profiles.", "§6 C06"),
     "C07": ("Lean proof (dictionary well-formedness invariant over all merge generations, exact characterisation of refusal) + "
             "differential correspondence incl. scarce-tag and >1024-string regimes",
             "C07.generations: every region reachable by push/clear/merge from any sources satisfies WF; under WF a push either is "
@@ -95,6 +98,13 @@ CHECKS = {
             "columns_iter_form(_region): lazily created columns equal pre-padded ones. The remaining forms forward to the canonical "
             "impl in one step and are modelled as such (transcription); the twin run compares indices, used bytes and reads of a "
             "mixed-form history with a canonical-form twin and measures that all 416 entry x form pairs are hit.", "§6 C20"),
+    "C16": ("Lean proof (serde model: de (ser r) = clone r for every instance; clone is observationally the source) + differential "
+            "correspondence incl. structural comparison of the serialised tree",
+            "C16.de_ser: deserialising the serialisation of any region / index container / FlatStack yields exactly the clone in the "
+            "model (all bookkeeping fields identical: last_index, stride state, spill lists, offsets), C16.continuation: which answers "
+            "every further push sequence like the original; one inferInstance obligation per serde-enabled composition. Scripts "
+            "serialise the real value with serde_json, compare its tree with the model's (struct nodes as multisets of field "
+            "values) and drive both copies through the same continuation comparing indices, reads and used bytes.", "§6 C16"),
 }
 
 
